@@ -1,5 +1,5 @@
 """C19 (link-state watcher) and C20 (server supervision)."""
-import concurrent.futures, json, os, random, time
+import concurrent.futures, json, os, random, re, time
 import vf
 
 NS_PKGS = {"internal/netstate": ["common/vf_util.go", "netstate/vf_watcher.go"]}
@@ -134,14 +134,33 @@ def c19(pid, tier, replay):
     if nshards > 1:
         with concurrent.futures.ThreadPoolExecutor(max_workers=nshards) as ex:
             outs += list(ex.map(one, range(1, nshards)))
+    # "subscribing concurrently with notification is safe": the concurrent scenarios once more under the race detector
+    races = []
+    conc = [s for s in scen if s.get("conc")]
+    if conc and not replay:
+        inp = os.path.join(tmp, "C19-race-in.ndjson")
+        vf.write_ndjson(inp, conc[:40])
+        try:
+            vf.go_test(NS_PKGS, "internal/netstate", "^TestVF_Watcher$", env={"VF_IN": inp, "VF_OUT": os.path.join(tmp, "C19-race-out.ndjson")},
+                       tmp=vf.mktmp("vf-go-"), race=True)
+        except vf.DataRace as dr:
+            # only races that involve the code under test count (frames in internal/netstate outside the harness files)
+            blocks = [b for b in dr.out.split("WARNING: DATA RACE")[1:] if re.search(r"internal/netstate/watcher(_linux)?\.go", b)]
+            if blocks:
+                races = blocks[:3]
+            else:
+                raise vf.Infra("data race inside the harness itself: %s" % dr.out[-1500:])
     rows = []
     for f in outs:
         rows += vf.read_ndjson(f)
     viols, vstates = validate(tmp, rows, "WatchTrace", dict(Cap=8), "C19")
+    for b in races:
+        viols.append({"viol": "c19-data-race-between-subscribe-notify-and-end", "id": "C19-race", "detail": b[:1500]})
     by_id = {s["id"]: s for s in scen}
     rc = 0
     for v in viols[:8]:
-        path = vf.save_replay(pid, v["id"], {"property": pid, "clause": v["viol"], "scenarios": [by_id.get(v["id"])]})
+        path = vf.save_replay(pid, v["id"], {"property": pid, "clause": v["viol"], "scenarios": [by_id.get(v["id"])] if v["id"] in by_id else conc[:40],
+                                             "detail": v.get("detail")})
         print("VIOLATION property=C19 replay=%s clause=%s scenario=%s" % (path, v["viol"], v["id"]))
         rc = 1
     sample = []
@@ -162,7 +181,7 @@ def c19(pid, tier, replay):
            "model_checking_runs": mcs, "trace_lines_validated": len(rows), "violating_traces": len(viols), "exhaustive": False}
     vf.write_evidence(pid, tier, "model_checking", cov,
                       ["the OS watch hook is replaced (w.watch), as in the repository's own tests; osWatch/netlink itself is not exercised",
-                       "data-race freedom of concurrent Subscribe/notify is only exercised (no -race build in the quick tier); the oracle for "
+                       "the concurrent Subscribe / notify / end scenarios run a second time under the Go race detector; a report whose stacks touch watcher.go is a violation; the oracle for "
                        "concurrent runs is order/selection/closure, not a full linearizability search",
                        "model buffer capacity is 2 in the sequence exploration and 8 (the real value) in trace validation"],
                       time.time() - t0, violations=len(viols))
